@@ -49,7 +49,10 @@ Record ers_plan := MkErsPlan {
   pl_requeue : bool;
   pl_requeue_after : dur;
   pl_error : bool;                     (* Reconcile returned a non-nil error *)
-  pl_backoff : backoff
+  pl_backoff : backoff;
+  (* witnesses of the decision, for the theorems and monitors (not compared with the implementation) *)
+  pl_update_nodes : list name;         (* nodes whose pod is deleted in order to update it *)
+  pl_rolling : option rolling_plan     (* active role: candidate sets, counts and budgets *)
 }.
 
 Definition in_ns_with_eds_label (e : eds) (p : pod) : bool :=
@@ -156,112 +159,133 @@ Record choice := MkChoice {
 Definition remove_names (canary : list name) (items : list nitem) : list nitem :=
   filter (fun i => negb (memN (ni_name i) canary)) items.
 
+(** What the sync derives from its lists before the role-specific strategy runs. *)
+Record sync_ctx := MkCtx {
+  cx_eds : eds;
+  cx_freq : dur;
+  cx_role : role;
+  cx_nodes : list (node * option setting);   (* listed nodes with the setting attached to each *)
+  cx_pods : list pod;                        (* listed pods (own + adopted) *)
+  cx_canary_nodes : list name;
+  cx_ignore : list name;
+  cx_fo : filter_out;
+  cx_items : list nitem
+}.
+Definition cx_listed (cx : sync_ctx) : list name := map (fun ns => n_name (fst ns)) (cx_nodes cx).
+Definition cx_cleanup (cx : sync_ctx) : list name := cleanup_targets (fo_cleanup (cx_fo cx)).
+Definition cx_unsched (cx : sync_ctx) : list name := unscheduled_nodes (fo_unscheduled (cx_fo cx)).
+Definition pod_of_node (items : list nitem) (nn : name) : list name :=
+  match find_item items nn with
+  | Some i => match ni_pod i with Some p => [p_name p] | None => [] end
+  | None => [] end.
+
 Section Sync.
 Variable sn : ers_snapshot.
 Variable obs : choice.
 
-Definition sync_body (e : eds) : outcome ers_plan :=
+Definition build_ctx (e : eds) (freq : dur) : outcome sync_ctx :=
   let rs := sn_rs sn in
   let now := sn_now sn in
-  let fl := sn_faults sn in
-  let read := r_status rs in
-  match st_freq (e_strategy e) with
-  | None => Panic 30%N
-  | Some freq =>
-  (* gate on LastFullSync *)
-  let gate :=
-    match get_cond (rs_conds read) CT_LastFullSync with
-    | Some c => let next := tadd (c_update c) freq in
-                if tafter next now then Some (tsub next now) else None
-    | None => None
-    end in
-  match gate with
-  | Some d => Ok (MkErsPlan (role_of e (r_name rs)) [] [] [] [] [] [] None false d false (sn_backoff sn))
-  | None =>
   let rl := role_of e (r_name rs) in
   bind (listed_nodes rs e (sn_nodes sn) (sn_settings sn)) (fun nodes =>
   bind (listed_pods e (sn_pods sn) (sn_old_ds sn)) (fun pods =>
   let canary_nodes := match es_canary (e_status e) with Some c => cs_nodes c | None => [] end in
   let ignore := match rl, es_canary (e_status e) with RoleActive, Some _ => canary_nodes | _, _ => [] end in
   let fo := filter_and_map rs (map fst nodes) pods ignore now (sn_backoff sn) in
-  let items := items_of nodes (fo_by_node fo) in
-  let listed := map (fun ns => n_name (fst ns)) nodes in
-  let unsched := unscheduled_nodes (fo_unscheduled fo) in
-  let cleanup := cleanup_targets (fo_cleanup fo) in
-  let pod_of_node nn := match find_item items nn with
-                        | Some i => match ni_pod i with Some p => [p_name p] | None => [] end
-                        | None => [] end in
-  (* role specific part *)
-  let strat : outcome strat_out :=
-    match rl with
-    | RoleActive =>
-        let c0 := update_cond (rs_conds read) now CT_Canary CFalse no_name no_name false false in
-        let c1 := update_cond c0 now CT_CanaryPaused CFalse no_name no_name false false in
-        let c2 := update_cond c1 now CT_CanaryFailed CFalse no_name no_name false false in
-        let paused := a3_true (an_rolling_paused (e_annots e)) in
-        let frozen := a3_true (an_frozen (e_annots e)) in
-        let c3 := update_cond c2 now CT_RollingUpdatePaused (bool_to_cond paused) no_name no_name false false in
-        let c4 := update_cond c3 now CT_RolloutFrozen (bool_to_cond frozen) no_name no_name false false in
-        let c5 := update_cond c4 now CT_Active (bool_to_cond (negb paused && negb frozen)) no_name no_name false false in
-        let items' := remove_names canary_nodes items in
-        match rolling_plan_of rs (e_annots e) (st_rolling (e_strategy e)) now items' with
-        | Panic c => Panic c
-        | Error _ => Ok (MkStratOut None [] [] [] false 0 true [] [] [] None)
-        | Ok pl =>
-            (* the nodes whose pod the runtime chose to delete: candidates whose pod was deleted *)
-            let chosen := filter (fun nn => existsb (fun pn => memN pn (ch_deleted_pods obs)) (pod_of_node nn))
-                                 (rp_del_unavailable pl ++ rp_del_available pl) in
-            let '(d, cur, rdy, av, ign) := rolling_status_counts pl in
-            let c6 := cleanup_conds c5 now (fo_cleanup fo) fl in
-            let st := MkErsStatus RS_ACTIVE d cur rdy av ign c6 in
-            let labelled :=
-              if tsub now (rp_start pl) <? CLEAN_LABELS_THRESHOLD
-              then pod_names (filter (fun p => N.eqb (p_ns p) (r_ns rs) && p_is_canary_labelled p &&
-                                               N.eqb (p_rs_label p) (r_name rs)) (sn_pods sn))
-              else [] in
-            Ok (MkStratOut (Some st) (ch_creates obs) chosen unsched
-                  (negb (d =? rdy) || negb (Nat.eqb (length (failed_of labelled (f_patch fl))) 0)) 0
-                  (negb (Nat.eqb (length (failed_of cleanup (f_delete fl))) 0))
-                  [] labelled cleanup (Some pl))
-        end
-    | RoleCanary =>
-        let c0 := update_cond (rs_conds read) now CT_Canary CTrue no_name no_name false false in
-        let c1 := update_cond c0 now CT_Active CFalse no_name no_name false false in
-        bind (manage_canary_status rs (e_annots e) (st_canary (e_strategy e)) now canary_nodes listed items
-                            (with_conds read c1)) (fun cp =>
-        (* ensureCanaryPodLabels stops at the first failing patch *)
-        let want := flat_map (fun nn => match find_item items nn with
-                                        | Some i => match ni_pod i with
-                                                    | Some p => if N.eqb (p_rs_label p) (r_name rs) && negb (p_is_canary_labelled p)
-                                                                then [p_name p] else []
-                                                    | None => [] end
-                                        | None => [] end) canary_nodes in
-        let fix upto (l : list name) : list name * bool :=
-            match l with
-            | [] => ([], false)
-            | x :: r => if memN x (f_patch fl) then ([x], true) else let '(t, b) := upto r in (x :: t, b)
-            end in
-        let '(adds, add_failed) := upto want in
-        let cleanup_failed := negb (Nat.eqb (length (failed_of cleanup (f_delete fl))) 0) in
-        let st := with_conds (cp_status cp) (cleanup_conds (rs_conds (cp_status cp)) now (fo_cleanup fo) fl) in
-        let prompt := add_failed || cleanup_failed in
-        Ok (MkStratOut (Some st) (cp_creates cp) (cp_deletes cp) unsched
-              (cp_requeue cp || prompt) (if cp_requeue cp || prompt then second else 0)
-              cleanup_failed adds [] cleanup None))
-    | RoleUnknown =>
-        let c0 := update_cond (rs_conds read) now CT_Canary CFalse no_name no_name false false in
-        let c1 := update_cond c0 now CT_Active CFalse no_name no_name false false in
-        let items' := remove_names canary_nodes items in
-        let good := filter (fun i => match ni_pod i with
-                                     | Some p => pod_up_to_date rs (ni_node i) (ni_setting i) p
-                                     | None => false end) items' in
-        let unresp := filter (fun i => match ni_pod i with Some p => scheduler_issue now p | None => false end) good in
-        let live := filter (fun i => match ni_pod i with Some p => negb (scheduler_issue now p) | None => false end) good in
-        let rdy := count_if (fun i => match ni_pod i with Some p => pod_ready p | None => false end) live in
-        let st := MkErsStatus RS_UNKNOWN 0 (zlen live) rdy rdy (zlen unresp) c1 in
-        Ok (MkStratOut (Some st) [] [] [] (negb (0 =? rdy)) second false [] [] [] None)
-    end in
-  bind strat (fun so =>
+  Ok (MkCtx e freq rl nodes pods canary_nodes ignore fo (items_of nodes (fo_by_node fo))))).
+
+(** The items the active (and the unknown) role plans over: canary nodes removed. *)
+Definition planning_items (cx : sync_ctx) : list nitem := remove_names (cx_canary_nodes cx) (cx_items cx).
+
+Definition strategy_active (cx : sync_ctx) : outcome strat_out :=
+  let rs := sn_rs sn in let now := sn_now sn in let fl := sn_faults sn in
+  let e := cx_eds cx in let read := r_status rs in
+  let c0 := update_cond (rs_conds read) now CT_Canary CFalse no_name no_name false false in
+  let c1 := update_cond c0 now CT_CanaryPaused CFalse no_name no_name false false in
+  let c2 := update_cond c1 now CT_CanaryFailed CFalse no_name no_name false false in
+  let paused := a3_true (an_rolling_paused (e_annots e)) in
+  let frozen := a3_true (an_frozen (e_annots e)) in
+  let c3 := update_cond c2 now CT_RollingUpdatePaused (bool_to_cond paused) no_name no_name false false in
+  let c4 := update_cond c3 now CT_RolloutFrozen (bool_to_cond frozen) no_name no_name false false in
+  let c5 := update_cond c4 now CT_Active (bool_to_cond (negb paused && negb frozen)) no_name no_name false false in
+  let items' := planning_items cx in
+  match rolling_plan_of rs (e_annots e) (st_rolling (e_strategy e)) now items' with
+  | Panic c => Panic c
+  | Error _ => Ok (MkStratOut None [] [] [] false 0 true [] [] [] None)
+  | Ok pl =>
+      (* the nodes whose pod the runtime chose to delete: candidates whose pod was deleted *)
+      let chosen := filter (fun nn => existsb (fun pn => memN pn (ch_deleted_pods obs)) (pod_of_node (cx_items cx) nn))
+                           (rp_del_unavailable pl ++ rp_del_available pl) in
+      let '(d, cur, rdy, av, ign) := rolling_status_counts pl in
+      let c6 := cleanup_conds c5 now (fo_cleanup (cx_fo cx)) fl in
+      let st := MkErsStatus RS_ACTIVE d cur rdy av ign c6 in
+      let labelled :=
+        if tsub now (rp_start pl) <? CLEAN_LABELS_THRESHOLD
+        then pod_names (filter (fun p => N.eqb (p_ns p) (r_ns rs) && p_is_canary_labelled p &&
+                                         N.eqb (p_rs_label p) (r_name rs)) (sn_pods sn))
+        else [] in
+      Ok (MkStratOut (Some st) (ch_creates obs) chosen (cx_unsched cx)
+            (negb (d =? rdy) || negb (Nat.eqb (length (failed_of labelled (f_patch fl))) 0)) 0
+            (negb (Nat.eqb (length (failed_of (cx_cleanup cx) (f_delete fl))) 0))
+            [] labelled (cx_cleanup cx) (Some pl))
+  end.
+
+(** [ensureCanaryPodLabels] stops at the first failing patch. *)
+Fixpoint patch_upto (fails : list name) (l : list name) : list name * bool :=
+  match l with
+  | [] => ([], false)
+  | x :: r => if memN x fails then ([x], true) else let '(t, b) := patch_upto fails r in (x :: t, b)
+  end.
+
+Definition canary_label_targets (rs : ers) (cx : sync_ctx) : list name :=
+  flat_map (fun nn => match find_item (cx_items cx) nn with
+                      | Some i => match ni_pod i with
+                                  | Some p => if N.eqb (p_rs_label p) (r_name rs) && negb (p_is_canary_labelled p)
+                                              then [p_name p] else []
+                                  | None => [] end
+                      | None => [] end) (cx_canary_nodes cx).
+
+Definition strategy_canary (cx : sync_ctx) : outcome strat_out :=
+  let rs := sn_rs sn in let now := sn_now sn in let fl := sn_faults sn in
+  let e := cx_eds cx in let read := r_status rs in
+  let c0 := update_cond (rs_conds read) now CT_Canary CTrue no_name no_name false false in
+  let c1 := update_cond c0 now CT_Active CFalse no_name no_name false false in
+  bind (manage_canary_status rs (e_annots e) (st_canary (e_strategy e)) now (cx_canary_nodes cx) (cx_listed cx)
+                      (cx_items cx) (with_conds read c1)) (fun cp =>
+  let '(adds, add_failed) := patch_upto (f_patch fl) (canary_label_targets rs cx) in
+  let cleanup_failed := negb (Nat.eqb (length (failed_of (cx_cleanup cx) (f_delete fl))) 0) in
+  let st := with_conds (cp_status cp) (cleanup_conds (rs_conds (cp_status cp)) now (fo_cleanup (cx_fo cx)) fl) in
+  let prompt := add_failed || cleanup_failed in
+  Ok (MkStratOut (Some st) (cp_creates cp) (cp_deletes cp) (cx_unsched cx)
+        (cp_requeue cp || prompt) (if cp_requeue cp || prompt then second else 0)
+        cleanup_failed adds [] (cx_cleanup cx) None)).
+
+Definition strategy_unknown (cx : sync_ctx) : outcome strat_out :=
+  let rs := sn_rs sn in let now := sn_now sn in
+  let read := r_status rs in
+  let c0 := update_cond (rs_conds read) now CT_Canary CFalse no_name no_name false false in
+  let c1 := update_cond c0 now CT_Active CFalse no_name no_name false false in
+  let items' := planning_items cx in
+  let good := filter (fun i => match ni_pod i with
+                               | Some p => pod_up_to_date rs (ni_node i) (ni_setting i) p
+                               | None => false end) items' in
+  let unresp := filter (fun i => match ni_pod i with Some p => scheduler_issue now p | None => false end) good in
+  let live := filter (fun i => match ni_pod i with Some p => negb (scheduler_issue now p) | None => false end) good in
+  let rdy := count_if (fun i => match ni_pod i with Some p => pod_ready p | None => false end) live in
+  let st := MkErsStatus RS_UNKNOWN 0 (zlen live) rdy rdy (zlen unresp) c1 in
+  Ok (MkStratOut (Some st) [] [] [] (negb (0 =? rdy)) second false [] [] [] None).
+
+Definition strategy_of (cx : sync_ctx) : outcome strat_out :=
+  match cx_role cx with
+  | RoleActive => strategy_active cx
+  | RoleCanary => strategy_canary cx
+  | RoleUnknown => strategy_unknown cx
+  end.
+
+(** The common tail of [Reconcile]: the two time-gated batches, the conditions, the status write. *)
+Definition finish_sync (cx : sync_ctx) (so : strat_out) : outcome ers_plan :=
+  let rs := sn_rs sn in let now := sn_now sn in let fl := sn_faults sn in
+  let read := r_status rs in let freq := cx_freq cx in
   (* defect D1c repaired: with no status from the strategy the status read is kept *)
   let st0 := match so_status so with Some s => s | None => read end in
   let c_uns := update_cond (rs_conds st0) now CT_Unschedule
@@ -273,7 +297,8 @@ Definition sync_body (e : eds) : outcome ers_plan :=
     | Some c => tsub now (c_update c) <? freq
     | None => false
     end in
-  let del_targets := if del_delayed then [] else flat_map pod_of_node (so_delete_nodes so) in
+  let del_nodes := if del_delayed then [] else so_delete_nodes so in
+  let del_targets := flat_map (pod_of_node (cx_items cx)) del_nodes in
   let c_del := if negb del_delayed && negb (Nat.eqb (length (so_delete_nodes so)) 0)
                then update_cond c_uns now CT_PodDeletion CTrue no_name M_PODS_DELETED false true else c_uns in
   (* creations; the log line of the delay branch dereferences the PodDeletion condition *)
@@ -295,25 +320,45 @@ Definition sync_body (e : eds) : outcome ers_plan :=
   let c_cre := if negb create_delayed && negb (Nat.eqb (length (so_create_nodes so)) 0)
                then update_cond c_del now CT_PodCreation CTrue no_name M_PODS_CREATED false true else c_del in
   let new_pods :=
-    flat_map (fun nn => match find (fun ns => N.eqb (n_name (fst ns)) nn) nodes with
+    flat_map (fun nn => match find (fun ns => N.eqb (n_name (fst ns)) nn) (cx_nodes cx) with
                         | Some (n, os) => [(nn, create_pod rs (Some n) os (sn_affinity_mode sn))]
                         | None => [] end) create_targets in
   (* [CreatePodFromDaemonSetReplicaSet] overwrites the malformed-annotation error with the result of
      [SetControllerReference] (the scheme is never nil in Reconcile): it never surfaces *)
-  let override_errors := false in
   let any_err := so_err so ||
                  negb (Nat.eqb (length (failed_of del_targets (f_delete fl))) 0) ||
-                 negb (Nat.eqb (length (failed_of create_targets (f_create fl))) 0) || override_errors in
+                 negb (Nat.eqb (length (failed_of create_targets (f_create fl))) 0) in
   let c_err := update_cond c_cre now CT_ReconcileError (bool_to_cond any_err) no_name no_name false true in
   let c_sync := update_cond c_err now CT_LastFullSync CTrue no_name M_FULL_SYNC true true in
   let new_status := with_conds st0 c_sync in
   let requeue_after := if del_delayed || create_delayed then freq else so_requeue_after so in
-  let bo' := if Z.modulo (now / second) 60 <? freq / second then bo_gc now (fo_backoff fo) else fo_backoff fo in
-  Ok (MkErsPlan rl create_targets new_pods del_targets (so_cleanup so)
+  let bo' := if Z.modulo (now / second) 60 <? freq / second then bo_gc now (fo_backoff (cx_fo cx)) else fo_backoff (cx_fo cx) in
+  Ok (MkErsPlan (cx_role cx) create_targets new_pods del_targets (so_cleanup so)
                 (so_label_add so) (so_label_del so) (Some new_status)
-                (so_requeue so) requeue_after (any_err || f_status fl) bo')
-  else Error 99%N)))
-  end end.
+                (so_requeue so) requeue_after (any_err || f_status fl) bo'
+                del_nodes (so_rolling so))
+  else Error 99%N.
+
+Definition idle_plan (rl : role) (st : option ers_status) (after : dur) (err : bool) : ers_plan :=
+  MkErsPlan rl [] [] [] [] [] [] st false after err (sn_backoff sn) [] None.
+
+(** [Some d] = the previous full sync is younger than reconcileFrequency: return after [d]. *)
+Definition sync_gate (freq : dur) : option dur :=
+  match get_cond (rs_conds (r_status (sn_rs sn))) CT_LastFullSync with
+  | Some c => let next := tadd (c_update c) freq in
+              if tafter next (sn_now sn) then Some (tsub next (sn_now sn)) else None
+  | None => None
+  end.
+
+Definition sync_body (e : eds) : outcome ers_plan :=
+  match st_freq (e_strategy e) with
+  | None => Panic 30%N
+  | Some freq =>
+      match sync_gate freq with
+      | Some d => Ok (idle_plan (role_of e (r_name (sn_rs sn))) None d false)
+      | None => bind (build_ctx e freq) (fun cx => bind (strategy_of cx) (fun so => finish_sync cx so))
+      end
+  end.
 
 (** The whole reconcile. *)
 Definition ers_sync : outcome ers_plan :=
@@ -324,8 +369,7 @@ Definition ers_sync : outcome ers_plan :=
   | Some e =>
       if negb (is_defaulted e) then
         let c := update_cond (rs_conds (r_status rs)) (sn_now sn) CT_ReconcileError CTrue no_name M_NOT_DEFAULTED false true in
-        Ok (MkErsPlan (role_of e (r_name rs)) [] [] [] [] [] [] (Some (with_conds (r_status rs) c))
-                      false second (f_status (sn_faults sn)) (sn_backoff sn))
+        Ok (idle_plan (role_of e (r_name rs)) (Some (with_conds (r_status rs) c)) second (f_status (sn_faults sn)))
       else sync_body e
   end.
 End Sync.
